@@ -79,6 +79,10 @@ func c01(c *Ctx) {
 			}
 		}
 	}
+	stepOnly := map[*load.FuncInfo]bool{}
+	for fi := range scope {
+		stepOnly[fi] = true
+	}
 	// state must be indistinguishable after save + load
 	for _, n := range []string{"ircserver.(*IRCServer).Marshal", "ircserver.(*IRCServer).Unmarshal"} {
 		if fi := c.P.Func(n); fi != nil {
@@ -305,6 +309,134 @@ func c01(c *Ctx) {
 	r.Ok("C01.R5", "scope", "no goroutines, channels, select", "-", itoa(len(fns))+" functions inspected")
 	r.Ok("C01.R6", "scope", "no pointer formatting", "-", itoa(len(fns))+" functions inspected")
 
+	// ---------- R3b node-local fields: a field of the replicated structs that is also written by code outside the step (the
+	// HTTP handlers' throttling and activity bookkeeping) holds a value that differs between nodes; the step must not read it
+	{
+		inScope := map[*load.FuncInfo]bool{}
+		for _, fi := range fns {
+			inScope[fi] = true
+		}
+		// constructors and loaders run as part of (re)building the replicated state
+		for _, n := range []string{"ircserver.NewIRCServer"} {
+			if fi := c.P.Func(n); fi != nil {
+				inScope[fi] = true
+			}
+		}
+		type acc struct {
+			fi  *load.FuncInfo
+			pos token.Pos
+		}
+		writes := map[*types.Var][]acc{}
+		reads := map[*types.Var][]acc{}
+		owners := map[string]bool{"Session": true, "channel": true, "IRCServer": true}
+		for _, fi := range c.P.FuncsIn("ircserver") {
+			if fi.Body() == nil {
+				continue
+			}
+			info := fi.Info()
+			lhs := map[ast.Node]bool{}
+			ast.Inspect(fi.Body(), func(n ast.Node) bool {
+				switch x := n.(type) {
+				case *ast.AssignStmt:
+					for _, l := range x.Lhs {
+						e := ast.Unparen(l)
+						for {
+							if ie, ok := e.(*ast.IndexExpr); ok {
+								e = ast.Unparen(ie.X)
+								continue
+							}
+							break
+						}
+						if se, ok := e.(*ast.SelectorExpr); ok {
+							lhs[se] = true
+							// a field of a local struct VALUE (copied := *session; copied.X = …) is not the shared field
+							if xid, ok := ast.Unparen(se.X).(*ast.Ident); ok {
+								if xv, ok := astx.Obj(info, xid).(*types.Var); ok && !xv.IsField() {
+									if _, isPtr := xv.Type().Underlying().(*types.Pointer); !isPtr {
+										if _, isStruct := xv.Type().Underlying().(*types.Struct); isStruct {
+											continue
+										}
+									}
+								}
+							}
+							if fv := astx.FieldSel(info, se); fv != nil {
+								if x.Tok == token.ASSIGN || x.Tok == token.DEFINE {
+									// plain assignment: a write only
+								} else {
+									lhs[se] = false // compound assignment reads as well
+								}
+								writes[fv] = append(writes[fv], acc{fi, se.Pos()})
+							}
+						}
+					}
+				case *ast.IncDecStmt:
+					if se, ok := ast.Unparen(x.X).(*ast.SelectorExpr); ok {
+						if fv := astx.FieldSel(info, se); fv != nil {
+							writes[fv] = append(writes[fv], acc{fi, se.Pos()})
+						}
+					}
+				}
+				return true
+			})
+			ast.Inspect(fi.Body(), func(n ast.Node) bool {
+				se, ok := n.(*ast.SelectorExpr)
+				if !ok || lhs[se] {
+					return true
+				}
+				if fv := astx.FieldSel(info, se); fv != nil {
+					reads[fv] = append(reads[fv], acc{fi, se.Pos()})
+				}
+				return true
+			})
+		}
+		var local []*types.Var
+		for fv, ws := range writes {
+			ownerName := ""
+			for _, tn := range []string{"Session", "channel", "IRCServer"} {
+				if nt := c.P.Named("ircserver", tn); nt != nil {
+					for _, sf := range structFields(nt) {
+						if sf == fv {
+							ownerName = tn
+						}
+					}
+				}
+			}
+			if !owners[ownerName] {
+				continue
+			}
+			if _, isMutex := fv.Type().(*types.Pointer); isMutex && strings.Contains(fv.Type().String(), "sync.") {
+				continue
+			}
+			outside := false
+			for _, w := range ws {
+				if !inScope[w.fi] {
+					outside = true
+				}
+			}
+			if outside {
+				local = append(local, fv)
+			}
+		}
+		sort.Slice(local, func(i, j int) bool { return local[i].Name() < local[j].Name() })
+		var localNames []string
+		for _, fv := range local {
+			localNames = append(localNames, fv.Name())
+			bad := token.NoPos
+			where := ""
+			for _, rd := range reads[fv] {
+				if stepOnly[rd.fi] {
+					bad, where = rd.pos, rd.fi.Name()
+				}
+			}
+			pos := c.P.Pos(fv.Pos())
+			if bad.IsValid() {
+				pos = c.P.Pos(bad)
+			}
+			r.Check(!bad.IsValid(), "C01.R3", "scope", "field "+c.P.FieldName(fv)+" (also written outside the step) is not read by the step", pos, "no read in the FSM-reachable scope",
+				"the step reads a field ("+where+") that code outside the state machine writes as well — the HTTP handlers update it on the node that receives a request, by that node's clock: its value differs between replicas, and so does the output computed from it")
+		}
+		r.Extra["node_local_fields"] = localNames
+	}
 	// ---------- R3 ambient state
 	read := map[*types.Var]token.Pos{}
 	for _, fi := range fns {
